@@ -1,6 +1,6 @@
 (* Canonical observation of a step (the same numbers harness/sim.py computes from the real
    objects) and the trace check used by the correspondence. *)
-From Coq Require Import ZArith NArith List Bool.
+From Coq Require Import ZArith NArith List Bool Uint63.
 From PSO Require Import Raft.Types Raft.Node Raft.Net.
 Import ListNotations.
 Open Scope N_scope.
@@ -75,9 +75,11 @@ Definition outs_enc (s : S) : list N :=
        (filter (fun o => match o with TAdd _ | TDrop _ => true | _ => false end) os)
   ++ [exc s; njmp s].
 
-Definition MODP : N := 2305843009213693951.   (* 2^61 - 1 *)
-Definition hstep (acc x : N) : N := (acc * 1000003 + x + 1) mod MODP.
-Definition hnums (xs : list N) (acc : N) : N := fold_left hstep xs acc.
+(* digest of an observation: a multiplicative hash over machine integers (wraps modulo 2^63), computed
+   identically by harness/sim.py:hnums *)
+Definition n2i (x : N) : int := match x with N0 => 0%uint63 | Npos p => Uint63.of_pos p end.
+Definition hstep (acc : int) (x : N) : int := (acc * 1000003 + n2i x + 1)%uint63.
+Definition hnums (xs : list N) (acc : int) : int := fold_left hstep xs acc.
 
 Definition step_obs (r : option (nid * S)) : list N * list N :=
   match r with
@@ -85,17 +87,17 @@ Definition step_obs (r : option (nid * S)) : list N * list N :=
   | None => ([], outs_enc (idle_S (init_node (mk_env (mkConf 0 0 0 0 0 0 true false true 0 0 0 0 false false) 0 0 0 [] 0) None [] 0)))
   end.
 
-Definition digest (r : option (nid * S)) : N :=
-  let (a, b) := step_obs r in hnums b (hnums a 7).
+Definition digest (r : option (nid * S)) : int :=
+  let (a, b) := step_obs r in hnums b (hnums a 7%uint63).
 
 (* index of the first event whose digest differs from the implementation's (or that is not enabled) *)
-Fixpoint check_trace (c : conf) (g : gstate) (evs : list event) (expected : list N) (i : N) : option N :=
+Fixpoint check_trace (c : conf) (g : gstate) (evs : list event) (expected : list int) (i : N) : option N :=
   match evs, expected with
   | [], [] => None
   | ev :: evs', d :: exp' =>
     match gstep c g ev with
     | None => Some i
-    | Some (g', r) => if digest r =? d then check_trace c g' evs' exp' (i + 1) else Some i
+    | Some (g', r) => if Uint63.eqb (digest r) d then check_trace c g' evs' exp' (i + 1) else Some i
     end
   | _, _ => Some i
   end.
